@@ -77,16 +77,26 @@ class History:
             assert r['rv'] == 0, r; h = (r['hpub'], r['hpriv'])
         s.helpers[name] = h; return h
     # ---- bookkeeping after a successful store
-    def adopt(s, tag, cls, path, h, tmpl=(), skip=()):
-        """read the object back through the API (positive control) and record every byte string that is now stored"""
-        o = Obj(tag, cls, path, h); s.M[tag] = o; snap = s.L.read(s.S, h); promised = persist.template_api_form(s.ck, tmpl)
-        if snap.get('CKA_PRIVATE') != b'\x01' or snap.get('CKA_TOKEN') != b'\x01': s.part.observe('object is not a private token object after ' + path, {'class': cls}); o.alive = False; return o
+    def note(s, v, cls, path, a):
+        before = len(s.secrets); s.record(v, cls, path, a)
+        if len(s.secrets) > before: s.part.distinct.add((cls, path, a, s.backend))
+    def adopt(s, tag, cls, path, h, tmpl=(), skip=(), own=None, on_token=True):
+        """after a successful store into a private object: FIRST record the byte strings the driver itself supplied (own: the
+        names of template entries that are the driver's fresh values; default all), whatever the API says afterwards; then read
+        the object back (positive control) and record the byte strings the library produced"""
+        o = Obj(tag, cls, path, h); promised = persist.template_api_form(s.ck, tmpl)
+        for a, v in promised.items():
+            if isinstance(v, bytes) and a not in skip and (own is None or a in own) and s.is_bytes_attr(a, v): s.note(v, cls, path, a)
+        if on_token: s.M[tag] = o
+        try: snap = s.L.read(s.S, h)
+        except ApiError as e:
+            s.part.observe('private object unreadable through the API right after ' + path, {'class': cls, 'error': str(e), 'backend': s.backend}); o.alive = False; return o
+        if snap.get('CKA_PRIVATE') != b'\x01' or snap.get('CKA_TOKEN') != (b'\x01' if on_token else b'\x00'): s.part.observe('object is not the private object asked for after ' + path, {'class': cls}); o.alive = False; return o
         for a, v in snap.items():
             if not isinstance(v, bytes) or a in skip or a in ('CKA_CHECK_VALUE',): continue
             if a in promised and promised[a] != v: s.part.observe('read-back differs from the template (outside C06)', {'class': cls, 'attr': a, 'path': path}); continue
-            if isinstance(promised.get(a, v), bytes) and (a in promised or path != 'C_CreateObject') and s.is_bytes_attr(a, v):
-                before = len(s.secrets); s.record(v, cls, path, a)
-                if len(s.secrets) > before: s.part.distinct.add((cls, path, a, s.backend))
+            if own is not None and a not in own: continue          # inherited from a public token object: legitimately on disk in clear over there
+            if isinstance(promised.get(a, v), bytes) and (a in promised or path != 'C_CreateObject') and s.is_bytes_attr(a, v): s.note(v, cls, path, a)
         return o
     def is_bytes_attr(s, a, v):
         """byte-string attributes only: not booleans (1 byte), CK_ULONG values or mechanism arrays"""
@@ -154,17 +164,31 @@ class History:
         r = x.call('C_DeriveKey', s=s.S, mech=mech, key=base, tmpl=s.T(tmpl)); s.part.count('calls_derive')
         if r['rv'] != 0: s.part.count('refused_derive'); s.part.observe('refused C_DeriveKey (no verdict)', {'kind': k, 'rv': r['rvname']}); return
         s.adopt(tag, 'derived-' + kt.lower(), 'C_DeriveKey', r['h'], tmpl)
-    def op_copy_upgrade(s, cls=None):
-        """public SESSION object (never on disk) -> private token object: every byte string must be encrypted on the way"""
-        cls = cls or s.rnd.choice(CLASSES); tag = s.newtag(); s.trace.append(('copy-upgrade', cls, tag.decode())); x = s.x()
-        src_t = [(a, v) for a, v in s.gen.template(cls, False, False, b'src') if a not in ('CKA_COPYABLE', 'CKA_MODIFIABLE')]; r = x.call('C_CreateObject', s=s.S, tmpl=s.T(src_t))
+    def copy_candidates(s, cls):
+        """byte-string attributes a copy template may carry for this class (refusals are expected for some)"""
+        c = s.gen.table[cls]; cand = [a for a, lens in c['opt']] + (['CKA_ISSUER', 'CKA_SERIAL_NUMBER'] if cls.startswith('cert') else []) + (list(persist.DATE_ATTRS) if c['dates'] else [])
+        return list(dict.fromkeys(cand))
+    def op_copy_upgrade(s, cls=None, source=None, target_token=None, extra=None, pos=None):
+        """public object (session object, or token object whose values are legitimately in clear) -> CKA_PRIVATE=true copy (token or
+        session target).  The copy template carries fresh random byte strings (label + `extra` attributes) at position `pos`:
+        everything inherited AND everything supplied in the template must end up encrypted"""
+        rnd = s.rnd; cls = cls or rnd.choice(CLASSES); source = source or rnd.choice(('session', 'session', 'token')); target_token = (rnd.random() < .8) if target_token is None else target_token
+        tag = s.newtag(); x = s.x(); cands = s.copy_candidates(cls)
+        if extra is None: extra = rnd.sample(cands, min(len(cands), rnd.randrange(0, 3)))
+        s.trace.append(('copy-upgrade', cls, source, 'token' if target_token else 'session', tag.decode(), list(extra)))
+        src_t = [(a, v) for a, v in s.gen.template(cls, source == 'token', False, b'src%d' % s.n) if a not in ('CKA_COPYABLE', 'CKA_MODIFIABLE', 'CKA_DESTROYABLE')]; r = x.call('C_CreateObject', s=s.S, tmpl=s.T(src_t))
         if r['rv'] != 0: s.part.count('refused_copy'); return
-        tmpl = [('CKA_TOKEN', True), ('CKA_PRIVATE', True), ('CKA_LABEL', tag + b'|' + s.fresh(16))]
+        fresh = [('CKA_LABEL', tag + b'|' + s.fresh(16))] + [(a, persist.rand_date(rnd) if a in persist.DATE_ATTRS else s.fresh(rnd.randrange(16, 70))) for a in extra]
+        flags = [('CKA_TOKEN', target_token), ('CKA_PRIVATE', True)]; tmpl = list(fresh)
+        for i, f in enumerate(flags):          # the byte strings sit before, between or after the flags that make the copy private
+            at = (pos if pos is not None else rnd.randrange(0, len(tmpl) + 1)) + i * (1 if pos is None else 0); tmpl.insert(min(max(at, 0), len(tmpl)), f)
         c = x.call('C_CopyObject', s=s.S, o=r['h'], tmpl=s.T(tmpl)); s.part.count('calls_copy'); x.call('C_DestroyObject', s=s.S, o=r['h'])
-        if c['rv'] != 0: s.part.count('refused_copy'); s.part.observe('refused C_CopyObject (no verdict)', {'class': cls, 'rv': c['rvname']}); return
-        # what the source template held is what the private copy must now hold (label replaced)
-        full = [(a, v) for a, v in src_t if a not in ('CKA_LABEL', 'CKA_TOKEN', 'CKA_PRIVATE')] + tmpl
-        s.adopt(tag, cls, 'C_CopyObject', c['h'], full)
+        if c['rv'] != 0: s.part.count('refused_copy'); s.part.observe('refused C_CopyObject (no verdict)', {'class': cls, 'rv': c['rvname'], 'extra': list(extra)}); return
+        s.part.distinct.add(('copy-upgrade', cls, source, 'token' if target_token else 'session', s.backend))
+        given = {a for a, v in fresh}
+        # what the source template held is what the private copy must now hold; values of a public TOKEN source are not secrets
+        full = [(a, v) for a, v in src_t if a not in given and a not in ('CKA_TOKEN', 'CKA_PRIVATE')] + tmpl
+        s.adopt(tag, cls, 'C_CopyObject', c['h'], full, own=(given if source == 'token' else None), on_token=target_token)
     def op_set(s):
         c = [o for o in s.M.values() if o.alive and o.cls in s.gen.table]
         if not c: return
@@ -296,10 +320,14 @@ class History:
         fixed = s.job.get('systematic')
         if fixed:
             # all classes x paths once
-            plan = [(s.op_create, c) for c in CLASSES] + [(s.op_copy_upgrade, c) for c in CLASSES] + [(s.op_generate_key, k) for k in ('aes', 'generic', 'des3', 'dsa-params', 'dh-params')] + \
+            plan = [(s.op_create, c) for c in CLASSES] + [(s.op_generate_key, k) for k in ('aes', 'generic', 'des3', 'dsa-params', 'dh-params')] + \
                    [(s.op_generate_pair, k) for k in ('ec', 'ed', 'rsa', 'dh')] + [(s.op_unwrap, k) for k in ('secret', 'secret', 'ec')] + [(s.op_derive, k) for k in ('ecdh', 'aes-ecb', 'aes-cbc', 'dh')]
             for i, (f, a) in enumerate(plan):
                 f(a); s.check(s.trace[-1][0] if s.trace else '?', deep=(i % 4 == 3))
+            n = 0
+            for c in CLASSES:
+                for extra in [[]] + [[a] for a in s.copy_candidates(c)] + [s.copy_candidates(c)[:3]]:
+                    n += 1; s.op_copy_upgrade(c, source=('session', 'token')[n % 2], target_token=(n % 5 != 0), extra=extra, pos=(0, 1, 2, 9)[n % 4]); s.check('copy-upgrade', deep=(n % 9 == 8))
             for i in range(25): s.op_set(); s.check('set', deep=(i % 6 == 5))
             for f in (s.op_setpin_user, s.op_setpin_so, s.op_initpin, s.op_restart): f(); s.check(s.trace[-1][0])
             s.op_reinit_token(); s.check('C_InitToken'); s.op_create('sk-aes'); s.op_create('data'); s.check('after re-initialisation')
@@ -329,6 +357,81 @@ def w_history(job):
     if len(part.samples) < 1: part.samples.append({'seed': job['seed'], 'backend': job['backend'], 'umask': job['umask'], 'secrets': len(h.secrets), 'history_head': [repr(t) for t in h.trace[:15]]})
     shutil.rmtree(d, ignore_errors=True); return part
 
+# ---------------------------------------------------------------- RNG fault sweep (beyond the stated quantifier, see assumptions)
+RLABEL = b'c06-rng'; RSO = b'SO:rng-sweep-so-pin'; RUSER = b'U:rng-sweep-user-pin'
+RNG_CALLS = ('C_CreateObject', 'C_GenerateKey', 'C_GenerateKeyPair', 'C_SetAttributeValue', 'C_CopyObject', 'C_UnwrapKey', 'C_DeriveKey', 'C_SetPIN')
+def rng_base(L):
+    ck = L.ck; L.start(); L.init_token(RLABEL, so=RSO, user=RUSER); S = L.login(RLABEL, pin=RUSER); T = L.x.T
+    for t in ([('CKA_CLASS', ck.CKO_SECRET_KEY), ('CKA_KEY_TYPE', ck.CKK_AES), ('CKA_TOKEN', True), ('CKA_PRIVATE', True), ('CKA_LABEL', b'victim-set'), ('CKA_ID', os.urandom(20)), ('CKA_VALUE', os.urandom(32)), ('CKA_SENSITIVE', False), ('CKA_EXTRACTABLE', True)],
+              [('CKA_CLASS', ck.CKO_SECRET_KEY), ('CKA_KEY_TYPE', ck.CKK_GENERIC_SECRET), ('CKA_TOKEN', True), ('CKA_PRIVATE', False), ('CKA_LABEL', b'victim-copy'), ('CKA_ID', os.urandom(20)), ('CKA_VALUE', os.urandom(40)), ('CKA_SENSITIVE', False), ('CKA_EXTRACTABLE', True)],
+              [('CKA_CLASS', ck.CKO_DATA), ('CKA_TOKEN', True), ('CKA_PRIVATE', True), ('CKA_LABEL', b'bystander'), ('CKA_APPLICATION', os.urandom(20)), ('CKA_VALUE', os.urandom(100))]):
+        r = L.x.call('C_CreateObject', s=S, tmpl=T(t)); assert r['rv'] == 0, r
+    L.stop()
+def rng_scenario(L, S, call, rnd):
+    """prepare everything the call needs (no RNG fault armed yet) -> (request kwargs, [fresh plaintexts the call is given])"""
+    ck = L.ck; x = L.x; T = x.T; fr = lambda n: rnd.getrandbits(8 * n).to_bytes(n, 'big'); find = lambda lab: x.findall(S, [('CKA_LABEL', lab)])[1][0]
+    lab, idv, val = b'new|' + fr(16), fr(24), fr(48); priv = [('CKA_TOKEN', True), ('CKA_PRIVATE', True), ('CKA_LABEL', lab), ('CKA_ID', idv), ('CKA_SENSITIVE', False), ('CKA_EXTRACTABLE', True)]
+    helper = lambda: x.call('C_CreateObject', s=S, tmpl=T([('CKA_CLASS', ck.CKO_SECRET_KEY), ('CKA_KEY_TYPE', ck.CKK_AES), ('CKA_VALUE', fr(32)), ('CKA_WRAP', True), ('CKA_UNWRAP', True), ('CKA_DERIVE', True), ('CKA_PRIVATE', False)]))['h']
+    if call == 'C_CreateObject': return dict(s=S, tmpl=T([('CKA_CLASS', ck.CKO_SECRET_KEY), ('CKA_KEY_TYPE', ck.CKK_GENERIC_SECRET), ('CKA_VALUE', val), ('CKA_START_DATE', b'20240101')] + priv)), [lab, idv, val]
+    if call == 'C_GenerateKey': return dict(s=S, mech=x.M('CKM_AES_KEY_GEN'), tmpl=T(priv + [('CKA_VALUE_LEN', 32)])), [lab, idv]
+    if call == 'C_GenerateKeyPair': return dict(s=S, mech=x.M('CKM_EC_KEY_PAIR_GEN'), pub=T([('CKA_TOKEN', True), ('CKA_PRIVATE', True), ('CKA_EC_PARAMS', persist.P256), ('CKA_LABEL', b'newpub|' + fr(16))]), priv=T(priv)), [lab, idv]
+    if call == 'C_SetAttributeValue': return dict(s=S, o=find(b'victim-set'), tmpl=T([('CKA_ID', idv), ('CKA_LABEL', lab), ('CKA_END_DATE', b'20301231')])), [lab, idv]
+    if call == 'C_CopyObject':      # public SESSION source (token-object copies are broken wholesale on the db back-end, see C05)
+        src = x.call('C_CreateObject', s=S, tmpl=T([('CKA_CLASS', ck.CKO_SECRET_KEY), ('CKA_KEY_TYPE', ck.CKK_GENERIC_SECRET), ('CKA_PRIVATE', False), ('CKA_LABEL', b'src'), ('CKA_ID', fr(20)), ('CKA_VALUE', val), ('CKA_SENSITIVE', False), ('CKA_EXTRACTABLE', True)]))['h']
+        return dict(s=S, o=src, tmpl=T([('CKA_LABEL', lab), ('CKA_TOKEN', True), ('CKA_PRIVATE', True), ('CKA_ID', idv)])), [lab, idv, val]
+    if call == 'C_UnwrapKey':
+        W = helper(); K = x.call('C_CreateObject', s=S, tmpl=T([('CKA_CLASS', ck.CKO_SECRET_KEY), ('CKA_KEY_TYPE', ck.CKK_GENERIC_SECRET), ('CKA_VALUE', val), ('CKA_EXTRACTABLE', True), ('CKA_SENSITIVE', False), ('CKA_PRIVATE', False)]))['h']
+        w = x.call('C_WrapKey', s=S, mech=x.M('CKM_AES_KEY_WRAP'), wkey=W, key=K, buf=512); assert w['rv'] == 0, w
+        return dict(s=S, mech=x.M('CKM_AES_KEY_WRAP'), ukey=W, wrapped=w['out']['data'], tmpl=T([('CKA_CLASS', ck.CKO_SECRET_KEY), ('CKA_KEY_TYPE', ck.CKK_GENERIC_SECRET)] + priv)), [lab, idv, val]
+    if call == 'C_DeriveKey':
+        return dict(s=S, mech=x.M('CKM_AES_ECB_ENCRYPT_DATA', kdstr=fr(32).hex()), key=helper(), tmpl=T([('CKA_CLASS', ck.CKO_SECRET_KEY), ('CKA_KEY_TYPE', ck.CKK_GENERIC_SECRET), ('CKA_VALUE_LEN', 32)] + priv)), [lab, idv]
+    if call == 'C_SetPIN': return dict(s=S, old=RUSER.hex(), new=(b'U:' + idv).hex()), [b'U:' + idv]
+    raise ValueError(call)
+def rng_run(job, base, call, k, rnd):
+    """-> dict(rv, calls, injected, ivs, hits) ; k = 0: count only"""
+    d = os.path.join(job['scratch'], 'rng-%s-%s-%d-%d' % (job['backend'], call, k, os.getpid())); shutil.rmtree(d, ignore_errors=True); shutil.copytree(base, d, symlinks=True)
+    for f in os.listdir(d):
+        if f != 'tokens': os.remove(os.path.join(d, f))
+    L = Lib(job, d, job['backend'], job['cfg'])
+    try:
+        L.start(); S = L.login(RLABEL, pin=RUSER); assert S is not None; kw, fresh = rng_scenario(L, S, call, rnd)
+        L.x.call('rng', mode='fail', k=k) if k else L.x.call('rng', mode='count')
+        r = L.x.call(call, **kw); st = L.x.call('rng', mode='status'); L.x.call('rng', mode='off')
+        L.stop(); ivs = []; hits = []
+        for t in persist.read_disk(d + '/tokens', job['backend'], d): ivs += t.stored_ivs()
+        for p, st_ in persist.all_files(d + '/tokens'):
+            if stat.S_ISREG(st_.st_mode):
+                data = open(p, 'rb').read(); hits += [(role(p), len(v)) for v in fresh if v in data]
+        return dict(rv=r['rvname'], calls=st['calls'], injected=st['injected'], ivs=ivs, hits=hits)
+    finally:
+        L.stop(); shutil.rmtree(d, ignore_errors=True)
+def w_rng(job):
+    part = Part(); call = job['call']; b = job['backend']; base = os.path.join(job['scratch'], 'rng-base-%s-%s' % (b, call)); shutil.rmtree(base, ignore_errors=True); os.makedirs(base); rnd = random.Random(job['seed'])
+    try:
+        rng_base(Lib(job, base, b, job['cfg'])); ref = rng_run(job, base, call, 0, rnd)
+    except (Died, Hang, AssertionError, ApiError) as e: part.inconc('RNG sweep preparation failed for %s/%s: %r' % (b, call, e)); return part
+    part.count('rng_calls_' + call + '_' + b, ref['calls'])
+    if ref['rv'] != 'CKR_OK': part.inconc(f'RNG sweep: fault-free {call} on {b} failed with {ref["rv"]}'); return part
+    if ref['calls'] == 0: part.observe('no RAND_bytes request seen during a storing call (the executor cannot inject RNG faults here)', {'call': call, 'backend': b}); return part
+    for k in range(1, ref['calls'] + 1):
+        try: res = rng_run(job, base, call, k, rnd)
+        except Died as e:
+            part.observe('side:C17 library terminated the host when an RNG request failed', {'kind': e.kind(), 'fn': e.fn, 'where': e.where(), 'call': call, 'k': k, 'backend': b}); part.count('rng_faults_died'); continue
+        except Hang: part.inconc(f'executor hang under RNG fault {call} k={k}'); continue
+        except AssertionError as e: part.inconc(f'RNG fault run set-up failed {call} k={k}: {e!r}'); continue
+        if res['injected'] != 1: part.observe('RNG fault point not reached', {'call': call, 'k': k}); continue
+        ok = res['rv'] == 'CKR_OK'; part.case((call, 'rng-fault', b, 'ok' if ok else 'failed')); part.count('rng_faults_injected'); part.count('rng_faulted_calls_ok' if ok else 'rng_faulted_calls_failed')
+        w = dict(call=call, k=k, of=ref['calls'], rv=res['rv'], backend=b); seen = {}
+        for what, iv in res['ivs']:
+            name = what if isinstance(what, str) else hex(what)
+            if iv == b'\0' * 16: part.violation(f'{call}|{b},rng-fault|stored-with-all-zero-iv', f'an RNG request failed during {call}; the library stored a blob under an all-zero IV instead of failing', dict(w, blob=name))
+            if iv in seen: part.violation(f'{call}|{b},rng-fault|iv-shared-by-two-blobs', f'an RNG request failed during {call}; two stored blobs share an IV', dict(w, blobs=[seen[iv], name]))
+            seen[iv] = name
+        for r_, n in res['hits']: part.violation(f'{call}|{b},rng-fault|plaintext-on-disk', f'an RNG request failed during {call}; a value given to the call is in clear in a {r_} file', dict(w, file=r_, length=n))
+    shutil.rmtree(base, ignore_errors=True); return part
+
+def dispatch(job): return w_rng(job) if job['kind'] == 'rng' else w_history(job)
+
 def run(ctx):
     ctx.rule = ('one evaluation = one (recorded plaintext, directory scan) pair: after every step every file below the token directory is searched for every plaintext recorded so far '
                 '(PINs and master key included); distinct = (class, store path, attribute, back-end) of recorded byte strings of private token objects that the API returned unchanged '
@@ -341,10 +444,15 @@ def run(ctx):
     nh = ctx.q(40, 1000); steps = ctx.q(40, 50); ums = list(UMASKS)
     for i in range(nh):
         jobs.append(dict(common, kind='history', seed=ctx.seed * 100003 + 1000 + i, steps=steps, backend=('file', 'db')[i % 2], umask=ums[(i // 2) % 4], cfg='asan' if (ctx.quick or i % 5) else 'botan'))
-    for part in pmap(w_history, jobs, ctx.nproc): ctx.merge(part)
+    for backend in ('file', 'db'):
+        for call in RNG_CALLS: jobs.append(dict(common, kind='rng', call=call, backend=backend, cfg='asan', seed=ctx.seed * 100003 + 5000 + len(jobs)))
+    jobs.sort(key=lambda j: 0 if j.get('systematic') else 1)          # the long jobs first
+    for part in pmap(dispatch, jobs, ctx.nproc): ctx.merge(part)
     ctx.assumptions += ['scans look for verbatim byte strings of >= 16 bytes (dates: 8 bytes from ~3 million values); transformed leaks are out of reach',
                         'files are read after each call returns; SQLite journals that exist only during a call are not seen',
                         'public halves of generated key pairs are made private or kept as session objects, so that modulus / EC point are not legitimately on disk in clear; curve OIDs, public exponents and DH group constants are not recorded',
                         'C_CopyObject private->private (which duplicates the stored blob and its IV) is not a quantified path and is not exercised',
+                        'RNG fault sweep (OpenSSL builds only; beyond the property\'s stated quantifier, in the style of fault_sequences): each RAND_bytes request made by a storing call fails once in turn; a call that fails is fine, '
+                        'only a blob stored under an all-zero or duplicate IV (or a value in clear) counts; a process death there is a C17 observation',
                         'the executor runs with process umask 0, so mode bits on disk are the library\'s own masking']
 if __name__ == '__main__': main('C06', run, level='exploration', min_evaluations=20000, min_distinct=150)
